@@ -56,7 +56,7 @@ def main():
         t0 = time.time()
         ps = []
         for i in range(16):
-            ps.append(subprocess.Popen([binpath, corpus, "-max_total_time=%d" % seconds, "-timeout=25", "-max_len=1024", "-use_value_profile=1", "-reload=1",
+            ps.append(subprocess.Popen([binpath, corpus, "-max_total_time=%d" % seconds, "-timeout=25", "-max_len=1024", "-use_value_profile=1", "-reload=1", "-dict=%s" % os.path.join(ROOT, "harness", "fuzz", "tokens.dict"),
                                         "-seed=%d" % (i + 1), "-artifact_prefix=%s/art-%d-" % (work, i)],
                                        cwd=work, env=penv, stdout=subprocess.DEVNULL, stderr=subprocess.DEVNULL, preexec_fn=fuzzstage._limits))
         for p in ps:
